@@ -57,6 +57,8 @@ package pcache
 //@ lockchan ProviderCache.writeLock
 //@ protects ProviderCache.writeLock: write, seq
 
+// The advertisement time of a fetched record as the merge rule uses it: the epoch when absent or unparsable.
+//@ spec func effTime(v int) int = ite(parsedTime(str(time.RFC3339), v) == 0, dateTime(1970, 1, 1, 0, 0, 0, 0, time.UTC), parsedTime(str(time.RFC3339), v))
 //@ spec func pcOK(pc val) bool = pc != nil && pc.write != nil && pc.writeLock != nil && !closed(pc.writeLock) && all(k, has(pc.write, k) ==> pc.write[k] != nil) && forall(j, 0, len(pc.sources), pc.sources[j] != nil)
 
 // Sources are interfaces implemented outside this package. ASSUMED: a successful
@@ -94,6 +96,11 @@ package pcache
 //@   loop 2: iteration ghost us0 := pc.write[fetchedInfos[rangeindex + 1].AddrInfo.ID].updateSeq
 //@   loop 2: iteration ensures has(pc.write, fetchedInfos[rangeindex].AddrInfo.ID) && pc.write[fetchedInfos[rangeindex].AddrInfo.ID].seq == seq
 //@   loop 2: iteration ensures !had ==> pc.write[fetchedInfos[rangeindex].AddrInfo.ID].provider == fetchedInfos[rangeindex] && pc.write[fetchedInfos[rangeindex].AddrInfo.ID].updateSeq == seq
+// a new record is entered with its own advertisement time (so that a later, older record cannot replace it):
+//@   loop 2: iteration ensures !had ==> pc.write[fetchedInfos[rangeindex].AddrInfo.ID].lastUpdate == parsedTime(str(time.RFC3339), str(fetchedInfos[rangeindex].LastAdvertisementTime))
+// a record seen again replaces the cached one exactly when its advertisement time (the epoch if absent) is later:
+//@   loop 2: iteration ensures had && effTime(str(fetchedInfos[rangeindex].LastAdvertisementTime)) > lu0 ==> pc.write[fetchedInfos[rangeindex].AddrInfo.ID].provider == fetchedInfos[rangeindex] && pc.write[fetchedInfos[rangeindex].AddrInfo.ID].updateSeq == seq && pc.write[fetchedInfos[rangeindex].AddrInfo.ID].lastUpdate == effTime(str(fetchedInfos[rangeindex].LastAdvertisementTime))
+//@   loop 2: iteration ensures had && effTime(str(fetchedInfos[rangeindex].LastAdvertisementTime)) <= lu0 ==> pc.write[fetchedInfos[rangeindex].AddrInfo.ID].provider == p0 && pc.write[fetchedInfos[rangeindex].AddrInfo.ID].updateSeq == us0 && pc.write[fetchedInfos[rangeindex].AddrInfo.ID].lastUpdate == lu0
 //@   loop 2: iteration ensures had ==> pc.write[fetchedInfos[rangeindex].AddrInfo.ID].expiresAt == zero("time.Time") && pc.write[fetchedInfos[rangeindex].AddrInfo.ID].lastUpdate >= lu0
 //@   loop 2: iteration ensures had ==> (pc.write[fetchedInfos[rangeindex].AddrInfo.ID].provider == p0 && pc.write[fetchedInfos[rangeindex].AddrInfo.ID].updateSeq == us0 && pc.write[fetchedInfos[rangeindex].AddrInfo.ID].lastUpdate == lu0) || (pc.write[fetchedInfos[rangeindex].AddrInfo.ID].provider == fetchedInfos[rangeindex] && pc.write[fetchedInfos[rangeindex].AddrInfo.ID].updateSeq == seq && pc.write[fetchedInfos[rangeindex].AddrInfo.ID].lastUpdate > lu0)
 //@   loop 3: invariant pcOK(pc) && held(pc.writeLock) && pc.seq == seq && seq != old(pc.seq) && updates != nil && isfresh(updates)
